@@ -165,6 +165,31 @@ theorem C09_lock_discipline : lockDisciplineOk XmppModel.Generated.C09.lockFacts
 example : lockOk ("xmpp.(*lockWriteCloser).Close", "release-plain", 2) = false := by decide
 example : lockOk ("xmpp.(*Session).Encode", "handoff", 0) = false := by decide
 
+/-! ## Round E: every mutex of the handler packages is released on every path
+
+The same classification as above, run over every package that has wait-for sets (history, ibb,
+muc, receipts): here NO name is consumed, only the kind.  A `Lock()` that some path leaves
+without a matching release (an early `return` between `h.m.Lock()` and `h.m.Unlock()`), a lock
+handed to somebody else, or a release without an acquisition is refused: the next stanza that
+needs the mutex would wedge Serve.  `window` = `X.Unlock(); wait; X.Lock()` inside a region
+whose release is deferred (ibb `Conn.Read`). -/
+
+def handlerLockOk (f : String × String × Nat) : Bool :=
+  f.2.1 == "paired-defer" || f.2.1 == "paired-explicit" || f.2.1 == "window"
+
+def handlerLocksOk : Option (List (String × String × Nat)) → Bool
+  | some l => !l.isEmpty && l.all handlerLockOk &&
+      l.any (fun f => f.2.1 == "paired-defer") && l.any (fun f => f.2.1 == "paired-explicit")
+  | none => false
+
+theorem C09_handler_locks_released_on_every_path :
+    handlerLocksOk XmppModel.Generated.C09.handlerLockFacts = true := by
+  decide +kernel
+
+example : handlerLockOk ("receipts.(*Handler).HandleMessage",
+    "violation:a path leaves receipts.(*Handler).HandleMessage holding h.m (line 190)", 0) = false := by decide
+example : handlerLockOk ("x", "handoff", 0) = false := by decide
+
 /-! ## Goroutines started by the code in scope
 
 A handler that waits for a goroutine it started can be wedged by it (the goroutine blocks on a
